@@ -251,9 +251,18 @@ void run_cfg(vf::Ctx &c, const Cfg &cfg) {
           }
         }
         for (int x = 0; x < nexp; ++x) {
-          bool xff = false;
-          for (int j = ci; j < (int)i; ++j) if (ev[j].kind == XFF_ENTER && ev[j].a == x) xff = true;
-          if (!xff) fail("C02:provider-flush-without-exporter-flush", vf::sfmt("the provider's ForceFlush returned true at [%zu] but ForceFlush of exporter %d was not invoked in between", i, x));
+          // the exporter's ForceFlush must be entered after the last Export that carried a record produced
+          // before the flush was called (a flush issued before the data arrived flushes nothing)
+          int last_export = ci;
+          for (int j = 0; j < ci; ++j) {
+            if (ev[j].kind != RET_ADD) continue;
+            for (size_t k = 0; k < sh.exported.size(); ++k)
+              if (sh.exported[k].first == x && sh.exported[k].second == ev[j].a && sh.export_idx[k] > last_export) last_export = sh.export_idx[k];
+          }
+          bool xff = false, xff_any = false;
+          for (int j = ci; j < (int)i; ++j) if (ev[j].kind == XFF_ENTER && ev[j].a == x) { xff_any = true; if (j > last_export) xff = true; }
+          if (!xff_any) fail("C02:provider-flush-without-exporter-flush", vf::sfmt("the provider's ForceFlush returned true at [%zu] but ForceFlush of exporter %d was not invoked in between", i, x));
+          if (!xff) fail("C02:provider-flush-incomplete:exporter-flushed-before-data", vf::sfmt("the provider's ForceFlush returned true at [%zu]: ForceFlush of exporter %d was only invoked before the Export at [%d] of a record produced before the flush was called", i, x, last_export));
         }
       }
       // shutdown through the provider exports everything produced before it, then silence
